@@ -264,6 +264,18 @@ def gen_consts():
     EX("exceptTryParser", "_DateLocaleParser._try_parser")
     EX("exceptTryTimestamp", "_DateLocaleParser._try_timestamp_parser")
     EX("exceptParseWithFormats", "parse_with_formats")
+    def EXTRY(name, fn, callee):
+        """except names of the `try` of `fn` whose body calls `callee` ([] when that call is not guarded)"""
+        names = []
+        for n in ast.walk(d.func(fn)):
+            if isinstance(n, ast.Try) and any(isinstance(c, ast.Call) and callee in ast.unparse(c.func) for b in n.body for c in ast.walk(b)):
+                for h in n.handlers:
+                    t = h.type
+                    names.append(["BaseException"] if t is None else ([ast.unparse(e).split(".")[-1] for e in t.elts] if isinstance(t, ast.Tuple) else [ast.unparse(t).split(".")[-1]]))
+                break
+        emit("/-- date.py %s: except names of the try around the call of %s -/\ndef %s : List (List String) := %s" % (fn, callee, name, llist(names, llist)))
+    EXTRY("exceptPwfStrptime", "parse_with_formats", "strptime")
+    EXTRY("exceptPwfZone", "parse_with_formats", "apply_timezone_from_settings")
     SL("validPeriods", [c for n in ast.walk(d.func("_DateLocaleParser._is_valid_date_data")) if isinstance(n, ast.Compare) and isinstance(n.ops[0], ast.NotIn) for c in const_eval(n.comparators[0])], "date.py _is_valid_date_data periods")
     # does parse_with_formats consult strictness? (call to _check_strict_parsing present)
     pwf_calls = [ast.unparse(n.func) for n in ast.walk(d.func("parse_with_formats")) if isinstance(n, ast.Call)]
